@@ -99,3 +99,54 @@ def faults (reqVer : Option (Int × Int)) (i : Item) : List String :=
   | _ => ["message-shape"]
 
 end Kmip.Envelope
+
+namespace Kmip.Envelope
+open Kmip.TTLV
+
+/-! ### how the engine composes a response (engine.py `_process_batch` l.395-432, `_build_response` l.318-328,
+`build_error_response` l.330-353), as item trees -/
+
+/-- what `_process_batch` knows about one executed item when it composes the ResponseBatchItem -/
+inductive Outcome where
+  /-- the handler returned: status SUCCESS, no reason, no message, the handler's payload -/
+  | success (payload : Item)
+  /-- a KmipError (its status, reason, `str(e)`) or any other exception (OPERATION_FAILED, GENERAL_FAILURE,
+  fixed text); no payload -/
+  | failure (status reason : Nat) (message : Bytes)
+
+structure ItemResult where
+  operation : Option Nat          -- the request item's Operation (always present in a parsed request)
+  batchId : Option Bytes
+  outcome : Outcome
+
+def optItem {α} (o : Option α) (f : α → Item) : List Item :=
+  match o with
+  | some a => [f a]
+  | none => []
+
+/-- ResponseBatchItem.write order: operation, unique batch item ID, result status, result reason, result
+message, (asynchronous correlation value,) response payload -/
+def buildItem (r : ItemResult) : Item :=
+  .struct tBatchItem (
+    optItem r.operation (fun op => .prim tOperation (.enumeration op)) ++
+    optItem r.batchId (fun b => .prim tUniqueBatchItemID (.byteString b)) ++
+    (match r.outcome with
+     | .success payload => [.prim tResultStatus (.enumeration 0), payload]
+     | .failure st rs msg =>
+       [.prim tResultStatus (.enumeration st), .prim tResultReason (.enumeration rs),
+        .prim tResultMessage (.textString msg)]))
+
+def buildResponse (ver : Int × Int) (now : Int) (items : List ItemResult) : Item :=
+  .struct tResponseMessage (
+    .struct tResponseHeader [
+      .struct tProtocolVersion [.prim tProtocolVersionMajor (.integer ver.1),
+                                .prim tProtocolVersionMinor (.integer ver.2)],
+      .prim tTimeStamp (.dateTime now),
+      .prim tBatchCount (.integer items.length)] ::
+    items.map buildItem)
+
+/-- `build_error_response`: one item without operation and ID -/
+def buildErrorResponse (ver : Int × Int) (now : Int) (reason : Nat) (message : Bytes) : Item :=
+  buildResponse ver now [⟨none, none, .failure 1 reason message⟩]
+
+end Kmip.Envelope
